@@ -6,6 +6,8 @@ import (
 	"encoding/json"
 	"fmt"
 	"net/http"
+	"os"
+	"path/filepath"
 	"regexp"
 	"runtime"
 	"time"
@@ -147,7 +149,16 @@ type decodeResult struct {
 	snap     cache.VerifEntry
 }
 
+// codecOut: where a hang is reported; recentInputs: the last few decoded inputs (a hang may be the
+// consequence of an earlier input)
+var codecOut string
+var recentInputs []string
+
 func safeDecode(data []byte) decodeResult {
+	recentInputs = append(recentInputs, fmt.Sprintf("%x", data[:min(len(data), 120)]))
+	if len(recentInputs) > 6 {
+		recentInputs = recentInputs[1:]
+	}
 	ch := make(chan decodeResult, 1)
 	go func() {
 		var res decodeResult
@@ -170,6 +181,14 @@ func safeDecode(data []byte) decodeResult {
 	case r := <-ch:
 		return r
 	case <-time.After(5 * time.Second):
+		// a decode that does not return (a leaked lock, an endless loop) poisons the rest of the process:
+		// report the input and stop the family here — the orchestrator turns this into the replay
+		if codecOut != "" {
+			b, _ := json.Marshal(map[string]interface{}{"family": "codec", "kind": "hang", "what": "FromBytes did not return within 5 s", "data_hex": fmt.Sprintf("%x", data[:min(len(data), 200)]), "record_len": len(data),
+				"previous_inputs_hex": recentInputs})
+			_ = os.WriteFile(filepath.Join(codecOut, "inflight.json"), b, 0o644)
+			os.Exit(3)
+		}
 		return decodeResult{hung: true}
 	}
 }
@@ -233,6 +252,7 @@ func genVariant(r *hx.Rand) []byte {
 // codec family (C09): Bytes / FromBytes of structured entries, every
 // truncation offset, and a mutation stream, vs the model.
 func runCodec(seed uint64, n int, tier string, out string, replay string) {
+	codecOut = out
 	rnd := hx.NewRand(seed)
 	sum := hx.NewSummary("codec", seed)
 	sum.Rule = "one case = one structured entry (status 0..4 and out-of-range, nil/empty/multi-valued/non-ASCII/HTML-escaped/non-UTF-8 headers, body variants of length 0,1,255,256,random, profile name, min length, filter nil/compiled, timestamps incl. 0, negative, max) encoded with the real Bytes(), decoded with the real FromBytes on a fresh entry: the full record, EVERY strict prefix, and 6 mutants (bit flips, length-field edits incl. 0xFFFFFFFF, splices, garbage); each decode under recover + 5 s timeout; json/regexp answers recorded as oracle tables; non-trivial = entry with a response; distinct by record bytes; every decode is measured (runtime TotalAlloc) against 64 x input + 256 KiB; additionally each 4-byte length field of every record is set to 64 MiB, 2^31-1, 2^32-1, len and len+1 and decoded (no panic, no hang, allocation within the bound)"
